@@ -3,6 +3,7 @@ CONSTANTS
   Idents <- MCIdents
   Edges <- MCEdges
   ParentOf <- MCParent
+  Fresh <- MCFresh
   MaxWrites = 4
   MaxOutages = 2
   AsCoded = FALSE
